@@ -111,6 +111,18 @@ class QuotaError(Exception):
     super().__init__('quota exceeded for %s (limit %d)' % (resource, limit))
 
 
+class FalsyAttrs(RuntimeError):
+  """Attributes whose values are falsy but meaningful."""
+
+  def __init__(self, msg):
+    super().__init__(msg)
+    self.code, self.note, self.flag, self.items, self.nothing = 0, '', False, [], None
+
+
+class StopZero(StopIteration):
+  """`value` (slot-backed) is 0."""
+
+
 class KwOnlyNew(LookupError):
   """__new__ takes a keyword-only argument; `args` is empty."""
 
@@ -123,7 +135,7 @@ class KwOnlyNew(LookupError):
     super().__init__()
 
 
-USER = [(QuotaError, ('disk', 3)), (KwOnlyNew, {'key': 'k1'}), (DeviceError, ('sda', 5, 'I/O error')), (BatchError, ([ValueError('a'), KeyError('b')], 'load', 3)),
+USER = [(FalsyAttrs, ('falsy',)), (StopZero, (0,)), (QuotaError, ('disk', 3)), (KwOnlyNew, {'key': 'k1'}), (DeviceError, ('sda', 5, 'I/O error')), (BatchError, ([ValueError('a'), KeyError('b')], 'load', 3)),
         (NeedsArgs, (1, 'two')), (NeedsNewArgs, (404, 'nf')), (Slotted, ([1, 2],)), (CustomStr, ('m', {'k': 1})),
         (WithProperty, (21,))]
 
@@ -224,6 +236,8 @@ def gen_cases(rng, tier, boost=1):
     for depth in ([1, 3] if tier == 'quick' else [1, 2, 3]):
       for via in ('call', 'reference'):
         yield dict(c, depth=depth, via=via)
+    # raised by a configurable that is being run as the constructor of a gin.singleton
+    yield dict(c, depth=1, via='singleton')
 
 
 def _make(case):
@@ -283,6 +297,9 @@ def run_impl(case):
   if case['via'] == 'reference':
     gin.parse_config(f'em.consumer.v = @em.{entry}()')
     fn = g['consumer']
+  elif case['via'] == 'singleton':
+    gin.parse_config(f'em.consumer.v = @sx/gin.singleton()\nsx/gin.singleton.constructor = @em.{entry}')
+    fn = g['consumer']
   else:
     fn = g[entry]
   orig = public_attrs(exc, gin)
@@ -304,14 +321,14 @@ def run_impl(case):
       res['caught'] = None
     except cls as e:   # the original except clause must catch it
       res['caught_by_original_clause'] = True
-      res.update(_describe(e, exc, cls, gin, orig_str))
+      res.update(_describe(e, exc, cls, gin, orig_str, 'sx' if case['via'] == 'singleton' else 'sc'))
     except BaseException as e:  # pylint: disable=broad-except
       res['caught_by_original_clause'] = False
-      res.update(_describe(e, exc, cls, gin, orig_str))
+      res.update(_describe(e, exc, cls, gin, orig_str, 'sx' if case['via'] == 'singleton' else 'sc'))
   return res
 
 
-def _describe(e, exc, cls, gin, orig_str):
+def _describe(e, exc, cls, gin, orig_str, scope='sc'):
   d = {'same_object': e is exc, 'isinstance': isinstance(e, cls), 'type_name': type(e).__name__,
        'type_name_matches': type(e).__name__ == cls.__name__ and type(e).__module__ == cls.__module__,
        'subclass_of_original': issubclass(type(e), cls)}
@@ -331,7 +348,7 @@ def _describe(e, exc, cls, gin, orig_str):
   try:
     s = str(e)
     d['str_prefix_ok'] = orig_str is None or s.startswith(orig_str)
-    d['str_names_configurable'] = ("In call to configurable 'leaf'" in s) and ("in scope 'sc'" in s)
+    d['str_names_configurable'] = ("In call to configurable 'leaf'" in s) and (f"in scope '{scope}'" in s)
   except Exception as ex:  # pylint: disable=broad-except
     d['str_prefix_ok'] = False
     d['str_names_configurable'] = 'raises ' + type(ex).__name__
